@@ -118,7 +118,7 @@ func (z *verifZ1) run(b Buffer, taskFail bool, depth int) {
 		z.run(WithErrorHandler(b, eh), taskFail, depth-1)
 		return
 	}
-	r := &verifZ1Result{how: vnd.Choose(4), taskFail: taskFail}
+	r := &verifZ1Result{how: vnd.Choose(5), taskFail: taskFail}
 	z.results = append(z.results, r)
 	r.size, r.serr = b.GetSizeBytes()
 	switch r.how {
@@ -138,6 +138,9 @@ func (z *verifZ1) run(b Buffer, taskFail bool, depth int) {
 		r.data, r.err = data, err
 	case 3:
 		b.Discard()
+	case 4:
+		// a consumer whose size limit is too small for the object: refused, and the handle is let go
+		r.data, r.err = b.ToByteSlice(1)
 	}
 	z.done <- struct{}{}
 }
@@ -174,6 +177,11 @@ func Verif_C15_Z1_DecoratedClones() {
 		vnd.Cover("several-handles")
 	}
 	for _, r := range z.results {
+		if r.how == 4 {
+			vnd.Cover("limit-too-small")
+			vnd.Assert(r.err != nil && len(r.data) == 0, "an object larger than the consumer's limit was handed out")
+			continue
+		}
 		if r.taskFail {
 			vnd.Cover("task-error")
 			// a task that failed in the foreground turns the buffer into an error buffer:
